@@ -11,6 +11,7 @@ import Proofs.GoTieScrypt
 import Proofs.GoTieScryptCtor
 import Proofs.GoTieCliLazy
 import Proofs.GoTieCliEncId
+import Proofs.GoTieCliModes
 namespace AgeModel
 namespace Tie.C10
 
@@ -162,6 +163,37 @@ theorem encid_fresh_fail {ι : Type}
     (ss : List Extracted.age_Stanza) :
     Extracted.main_EncryptedIdentity_Unwrap Dc (fun _ _ => .error (.panic 96)) GoTie.errorsIsEq i ss = .ok ([], some e, i') :=
   GoTie.encid_fresh_fail Dc i i' hi e hD ss
+
+/-! The command line tool's side (cmd/age/age.go, translated on every run): with `-i` / `-j` the first
+identity handed to `decrypt` is ALWAYS `rejectScryptIdentity{}`, which answers a header that is exactly
+one passphrase stanza by ending the process (and every other header with "incorrect identity"), so a
+passphrase file is never decrypted by, nor silently skipped in favour of, identity files; with `-p`
+the passphrase the prompt returned becomes the ONE recipient `encrypt` is given. -/
+
+theorem rejectScrypt_unwrap_tie (stanzas : List Extracted.age_Stanza) :
+    Extracted.main_rejectScryptIdentity_Unwrap ⟨⟩ stanzas =
+      match stanzas with
+      | [s] => if s.Type_ = "scrypt".toUTF8.toList then .error (.panic 1000) else .ok ([], Extracted.age_ErrIncorrectIdentity)
+      | _ => .ok ([], Extracted.age_ErrIncorrectIdentity) :=
+  GoTie.rejectScrypt_unwrap_tie stanzas
+
+theorem decryptNotPass_reject_first {ι τ υ : Type} (reject : ι) (PIF : Bytes → τ → Go.M (List ι × Option Go.Err × τ)) (ui : υ)
+    (NI : Bytes → υ → τ → Go.M (ι × Option Go.Err × τ)) (flags : List Extracted.main_identityFlag) (t0 : τ) (r : τ × List ι)
+    (h : GoTie.collectIds PIF ui NI flags t0 [reject] = .ok r) : ∃ more, r.2 = reject :: more :=
+  GoTie.decryptNotPass_reject_first reject PIF ui NI flags t0 r h
+
+theorem encryptPass_tie {ζ ρ τ : Type} (Pr : τ → Go.M (Bytes × Option Go.Err × τ)) (NS : Bytes → τ → Go.M (ρ × Option Go.Err × τ))
+    (Cfg : ρ → Go.M Unit) (E : List ρ → Bytes → ζ → Bool → τ → Go.M τ) (inp : Bytes) (out : ζ) (armor : Bool) (t0 : τ) :
+    Extracted.main_encryptPass Pr NS Cfg E inp out armor t0 =
+      (do let p ← Pr t0
+          if (p.2.1 != none) = true then .error (.panic 1000)
+          else do
+            let r ← NS p.1 p.2.2
+            if (r.2.1 != none) = true then .error (.panic 1001)
+            else do
+              Cfg r.1
+              E [r.1] inp out armor r.2.2) :=
+  GoTie.encryptPass_tie Pr NS Cfg E inp out armor t0
 
 end Tie.C10
 end AgeModel
